@@ -475,6 +475,8 @@ package prunner
 //@ pure retPeriod(r *PipelineRunner, j *PipelineJob) int = r.defs.Pipelines[j.Pipeline].RetentionPeriod
 //@ pure retCount(r *PipelineRunner, j *PipelineJob) int = r.defs.Pipelines[j.Pipeline].RetentionCount
 //@ ghost $passDom array Bool
+// number of retention passes (one ranking of a pipeline's jobs each) performed by SaveToStore
+//@ ghost $passes scalar Int
 // number of appends to a per-pipeline list performed by initialLoadFromStore (one per persisted job)
 //@ ghost $loadAppends scalar Int
 //@ ghost $logsRemoveFailed array Bool
@@ -497,12 +499,17 @@ package prunner
 //@   ensures  [defs] r.defs == old(r.defs) && r.isShuttingDown == old(r.isShuttingDown)
 //@   ensures  [C11.tokens] $wgTokens == old($wgTokens)
 //@   ensures  [C11.saved] $saveCalls == old($saveCalls) + 1
+//@   loop 1 complete
+//@   loop 2 complete
+//@   at call (pipelineJobBy).Sort#1: ghost $passes := $passes + 1
+//@   loop 1 invariant [C12.everyPipeline] $passes - old($passes) == card($seen)
+//@   loop 2 invariant [C12.everyPipeline] $passes - old($passes) == card($seen1)
 //@   at call Save#1: assert [C11.saveTracked] $wgTokens == old($wgTokens) + 1
 //@   ensures  [C12.keepLive] liveKept(r)
 //@   ensures  [C01.listKeepsLive] forall p string, k int :: 0 <= k && k < old(len(r.jobsByPipeline[p])) && old(liveJob(r.jobsByPipeline[p][k])) ==> exists k2 :: 0 <= k2 && k2 < len(r.jobsByPipeline[p]) && r.jobsByPipeline[p][k2] == old(r.jobsByPipeline[p][k])
 //@   ensures  [C12.logsKept] forall id uuid.UUID :: (id in r.jobsByID) && idRoundTrips(id) ==> $logsRemoved[uf1(1, id)] == old($logsRemoved[uf1(1, id)])
 //@   ensures  [C12.waitLists] sameExcept("map(map[string][]*PipelineJob)", r.jobsByPipeline)
-//@   modifies map(map[uuid.UUID]*PipelineJob)@[r.jobsByID], map(map[string][]*PipelineJob)@[r.jobsByPipeline], mem(*PipelineJob), $clock, $logsRemoved, $logsRemoveFailed, $savedData, $saveCalls, $wgTokens, $passDom
+//@   modifies map(map[uuid.UUID]*PipelineJob)@[r.jobsByID], map(map[string][]*PipelineJob)@[r.jobsByPipeline], mem(*PipelineJob), $clock, $logsRemoved, $logsRemoveFailed, $savedData, $saveCalls, $passes, $wgTokens, $passDom
 //@   loop 1 invariant [ri] RI(r) && r.defs == old(r.defs) && r.jobsByPipeline == old(r.jobsByPipeline) && r.jobsByID == old(r.jobsByID) && jobsUntouched() && liveKept(r) && sameExcept("map(map[string][]*PipelineJob)", r.jobsByPipeline)
 //@   loop 2 invariant [ri] RI(r) && r.defs == old(r.defs) && r.jobsByPipeline == old(r.jobsByPipeline) && r.jobsByID == old(r.jobsByID) && jobsUntouched() && liveKept(r) && sameExcept("map(map[string][]*PipelineJob)", r.jobsByPipeline)
 //@   loop 1 invariant [bases] forall p string :: base(r.jobsByPipeline[p]) == old(base(r.jobsByPipeline[p])) && off(r.jobsByPipeline[p]) == old(off(r.jobsByPipeline[p]))
@@ -584,7 +591,7 @@ package prunner
 //@   lockmode none
 //@   ensures  [T] Tjobs()
 //@   ensures  [gate] old(r.isShuttingDown) ==> r.isShuttingDown
-//@   modifies map(map[uuid.UUID]*PipelineJob), map(map[string][]*PipelineJob), mem(*PipelineJob), $clock, $logsRemoved, $logsRemoveFailed, $savedData, $saveCalls, $wgWaited, $wgTokens, $passDom
+//@   modifies map(map[uuid.UUID]*PipelineJob), map(map[string][]*PipelineJob), mem(*PipelineJob), $clock, $logsRemoved, $logsRemoveFailed, $savedData, $saveCalls, $passes, $wgWaited, $wgTokens, $passDom
 //@   at call (*PipelineRunner).SaveToStore#1: assert [C11.finalSave] $wgWaited
 
 //@ func buildJobFromPersistedJob
